@@ -9,28 +9,43 @@ TARGETS = {
               "crypto/crypto_dh.c", "crypto/crypto_dh_group14.c", "aws/aws_readkeys.c",
               "cpusupport/cpusupport_x86_aesni.c", "cpusupport/cpusupport_x86_shani.c", "cpusupport/cpusupport_x86_sse2.c",
               "cpusupport/cpusupport_x86_ssse3.c", "util/insecure_memzero.c", "util/warnp.c"],
-        libs=["-lcrypto"], wrap=["free", "strdup"]),
+        libs=["-lcrypto"], wrap=["malloc", "free", "strdup"]),
 }
+
+# second build: every CPUSUPPORT_ feature of ./check's ALLCPU except X86_AESNI -> crypto_aes.c / crypto_aesctr.c are compiled
+# without HWACCEL (no hardware AES at all, as on a non-x86/non-ARM target or with a compiler lacking -maes)
+NO_AESNI = ["X86_CPUID", "X86_CPUID_COUNT", "X86_RDRAND", "X86_SHANI", "X86_SSE2", "X86_SSE42", "X86_SSE42_64", "X86_SSSE3"]
 
 CHECKS = {
     "C20": dict(
         promote=True,   # thorough bounds cost seconds: used for the quick tier as well
         deep=True,      # ./check adds --deep for the thorough tier: bounds beyond the promoted ones (see bounds["thorough"])
         level="model_checking",
-        runs=[dict(name="wipe", target="h_wipe", args=[], quick=[], thorough=[])],
-        deadline=dict(quick=150, thorough=900),   # deep: ~150 s measured at load average 20 (about 1500 CPU-seconds; 2.5x that wall time when the machine is saturated by others)
+        runs=[dict(name="wipe", target="h_wipe", args=[], quick=[], thorough=[]),
+              # the same harness on the library built without any hardware AES: the wipe code of crypto_aes.c / crypto_aesctr.c that
+              # is compiled there is not the code of the first build (#ifdef HWACCEL); the other sections compile to the same code in both
+              dict(name="wipe-noaesni", target="h_wipe", cpu=NO_AESNI, args=["--sections", "aes,ctr", "--ignore-deep"], quick=[], thorough=[])],
+        deadline=dict(quick=150, thorough=900),   # deep: ~150 s measured at load average 20 before the histories at 8 mod 16 / other secret lengths were added (+10%); 2.5x that wall time when the machine is saturated by others
         explanation=("states/transitions: hash = explicit-state search (engine/es.h) over (history, raw context bytes), one real Update/Final per edge; "
                      "aes/aesctr/keys = nodes and API calls of the history trees; dh = allocator events observed by the monitor during each call. "
-                     "traces = complete histories ending in Final / free / return, each judged by the wipe oracle."),
-        bounds=dict(quick="hash: 6 algorithms x Init,Update(k)^<=4,Final, k in {0,1,64,100}, HMAC keys {0,1,64,65,100} bytes; aes: {OpenSSL, AES-NI} x {16,32} x 2 keys x 0..2 encryptions; "
-                          "aesctr: 2 paths x {16,32} x {init, alloc+init2} x 2 nonce sets x <=4 ops from 7; dh: 3 ops x 3 private x 3 blinding (+entropy failure) x 2 peers + every single OpenSSL "
-                          "allocation failure for every private value x {r#0, r=x} x 3 ops; keys: all files of <=4 lines from 8 kinds x {EOF, read error}",
-                    thorough="hash: <=5 updates from 9 lengths; aes: 6 keys, 0..3 encryptions; aesctr: <=5 ops from 9; dh: 8 private x 6 blinding (+failure) x 4 peers, allocation failures for every private value; keys: <=4 lines "
+                     "traces = complete histories ending in Final / free / return, each judged by the wipe oracle. Two runs: 'wipe' = library built with every CPUSUPPORT_ feature, all "
+                     "sections; 'wipe-noaesni' = library built without CPUSUPPORT_X86_AESNI (no HWACCEL code in crypto_aes.c / crypto_aesctr.c), sections aes and aesctr only."),
+        bounds=dict(quick="hash: 6 algorithms x Init,Update(k)^<=4,Final, k in {0,1,64,100}, HMAC keys {0,1,64,65,100} bytes; aes: {OpenSSL, AES-NI} x {key object as malloc returns it, at 8 mod 16} x {16,32} x 2 keys x 0..2 encryptions; "
+                          "aesctr: 2 paths x {16,32} x {init, alloc+init2} x 2 nonce sets x <=4 ops from 7 (keys and stream object at 8 mod 16: <=3 ops); dh: 3 ops x 3 private x 3 blinding (+entropy failure) x 2 peers + every single OpenSSL "
+                          "allocation failure for every private value x {r#0, r=x} x 3 ops; keys: secrets of 40|1|2|3|7|41|42|43 characters x all files of <=4 lines from 8 kinds x {EOF, read error}; "
+                          "second run on the library built without CPUSUPPORT_X86_AESNI: aes and aesctr with the same bounds on the software path (the only one of that build)",
+                    thorough="hash: <=5 updates from 9 lengths; aes: 6 keys, 0..3 encryptions, each key object as malloc returns it and at 8 mod 16; aesctr: <=5 ops from 9 (objects at 8 mod 16: <=4 ops); dh: 8 private x 6 blinding (+failure) x 4 peers, "
+                             "allocation failures for every private value; keys: secrets of 40|1|2|3|7|41|42|43 characters x files of <=4 lines; the aes/aesctr bounds once more on the software path of the library built without CPUSUPPORT_X86_AESNI "
                              "(these bounds also serve the quick tier). ./check --tier thorough runs the harness with --deep: hash: <=6 updates from the 9 lengths (597871 contexts per algorithm/key, each finalised); "
-                             "aes: 16 keys, 0..5 encryptions; aesctr: <=6 ops from 12 (stream of 1|15|16|17|31|32|33|40|64|100 bytes, init2(NULL), init2(key')): 52118992 histories; dh: 14 private x 10 blinding (+entropy failure) "
-                             "x 6 peers + every single OpenSSL allocation failure for every private value x {r#0, r=x, r#1, entropy failure} x 3 ops (10640 failing calls); keys: all files of <=7 lines from 8 kinds x {EOF, read error} (2196114 files)"),
-        assumptions=["frees by libcperciva objects observed through -Wl,--wrap=free,strdup; frees inside libcrypto through CRYPTO_set_mem_functions",
-                     "crypto_entropy_read and fopen replaced at link time; AES code path forced through the cpusupport globals",
+                             "aes: 16 keys, 0..5 encryptions; aesctr: <=6 ops from 12 (stream of 1|15|16|17|31|32|33|40|64|100 bytes, init2(NULL), init2(key')), objects at 8 mod 16: <=5 ops: 56462240 histories; dh: 14 private x 10 blinding (+entropy failure) "
+                             "x 6 peers + every single OpenSSL allocation failure for every private value x {r#0, r=x, r#1, entropy failure} x 3 ops (10640 failing calls); keys: all files of <=7 lines (secrets of 40 characters; "
+                             "the 7 other lengths: <=5 lines) from 8 kinds x {EOF, read error} (2509840 files); the run on the build without CPUSUPPORT_X86_AESNI keeps the non-deep aes/aesctr bounds (590488 aesctr histories)"),
+        assumptions=["frees by libcperciva objects observed through -Wl,--wrap=malloc,free,strdup (the monitor gets the pointer the library passed to free() and the size it had asked for); "
+                     "frees inside libcrypto through CRYPTO_set_mem_functions",
+                     "blocks at 8 mod 16 stand for every allocator that does not return 16-byte aligned blocks (other residues are not explored)",
+                     "crypto_entropy_read and fopen replaced at link time; AES code path forced through the cpusupport globals; the build without hardware AES is the x86 build "
+                     "minus CPUSUPPORT_X86_AESNI (an ARM build with CPUSUPPORT_ARM_AES is not built)",
+                     "the two secrets of a key file have the same length; secrets shorter than 7 characters are searched only in the block strdup() returned for them",
                      "DH: only 64-bit limbs with >= 6 distinct bytes that do not occur in p or the peer value are searched"],
     ),
 }
@@ -39,10 +54,12 @@ CLAIMS = {
     "C20": dict(
         text=("Every history in the bounds is executed on the real code. Hash/HMAC: an explicit-state search over the raw context bytes checks that every byte of the "
               "context is zero after each *_Final. AES key, AES-CTR stream, DH temporaries and the secret read by a failing aws_readkeys: a monitor inside free() "
-              "(and inside OpenSSL's free/realloc hooks) searches every released block for the raw key, every FIPS-197 round key, every nonce and keystream block, "
-              "every high-entropy 64-bit limb of the private exponent / blinding value / blinded exponent, every 12-byte piece of the secret. The same search run on "
+              "(and inside OpenSSL's free/realloc hooks) searches every released block for the raw key, every FIPS-197 round key and every 8-byte window of the key schedule, "
+              "every nonce and keystream block, every high-entropy 64-bit limb of the private exponent / blinding value / blinded exponent, every 12-byte piece of the secret; "
+              "the block that held the secret is also compared with it position by position (secret lengths 1..43, so that a wipe that forgets a tail shows). The same search run on "
               "the live objects just before release (for DH: on all live OpenSSL blocks at every allocator event) must find the patterns, so a blind monitor is an "
-              "engine error, not a pass. DH error paths are reached by failing each OpenSSL allocation in turn and by entropy failure."),
+              "engine error, not a pass. DH error paths are reached by failing each OpenSSL allocation in turn and by entropy failure. AES objects are explored both where "
+              "malloc puts them and at 8 mod 16, and on two builds of the library: with AES-NI compiled in (both paths) and with no hardware AES compiled in."),
         note=("Trusted: malloc_usable_size, the --wrap/CRYPTO_set_mem_functions seams, engine/ref/aes_ks_ref.c. Not covered: stack copies and registers (e.g. the line buffer "
               "and blinding array on the stack), memory released by libc itself (stdio's buffer of the key file), low-entropy limbs of DH secrets (zero / all-ones limbs "
               "cannot be told from other data), hash acceleration paths other than the one this CPU selects (the wipe is in the path-independent wrapper)."),
